@@ -217,5 +217,23 @@ CHECKS["C05"] = {
     ],
 }
 
+CHECKS["C07"] = {
+    "pkg": "./checks/c07",
+    "level": "fault_enumeration",
+    "technique": "exhaustive crash-point and storage-fault enumeration (fault injection at every storage / Lightning call boundary) with restart and an adversarial recovery follow-up judged by invariants over the history",
+    "rule": ("operations: mint quote, mint, swap, melt quote, melt x LN outcome {success, pending->success, pending->failure, failed, transport error not sent, transport error but paid}, resolution of a pending melt by quote poll / proof-state check x {succeeded, failed}, internal settlement, runtime RotateKeyset. "
+             "For each operation the un-faulted run on a fresh world lists its n storage / Lightning calls; then EVERY crash position k = 0..n (k = n: all effects done, response lost) and every single storage fault error@k / error-from@k is executed from an identical fresh world (quick: one set-up; thorough: 12 set-ups varying input count, fee ppk and other database content). "
+             "After the fault the mint is restarted on the same directory and the follow-up runs: poll quotes, check states, RestoreSignatures of the operation's outputs, retry identical, retry with fresh outputs, re-spend the inputs, re-mint the quote. "
+             "oracle: safety (money ledger of C02 over everything the client obtained, no model conflict C01/C03, LoadMint succeeds, keysets unchanged with one active), durability (all earlier signatures restorable, spent stays spent, acknowledged results kept), atomicity (client ends with inputs still spendable / quote still mintable / payment not made and inputs usable, XOR outputs obtained / payment made with quote PAID and inputs unusable). "
+             "every faulted run is non-trivial; distinct = (operation, fault kind, position, set-up). All positions are always run; each violation is compared with known_findings.jsonl by signature (operation class, call position, symptom)."),
+    "level_text": ("The finite set of fault positions of every mint operation is enumerated completely against the real code and real SQLite files, with a real restart (LoadMint on the same directory). "
+                   "Fault enumeration is the right level: the quantifier is the set of call boundaries, which the storage proxy makes enumerable."),
+    "level_note": _WORLD_NOTE + "A crash is modelled as process death between two storage / Lightning calls (torn SQLite commits are not modelled). Start-up itself runs un-faulted.",
+    "assumptions": ["crash = death between two storage/LN calls; SQLite commits are atomic and durable", "storage faults hit the operation's own goroutine only"],
+    "units": [
+        plain("crashpoints", "^TestCrashPoints$", qs=16, ts=16, ttimeout=3000),
+    ],
+}
+
 NOT_APPLICABLE = {}
 HOOK_COMMITS = []
